@@ -50,8 +50,6 @@ def run(ctx, texts, unit='doc', configs=None, as_lines=False):
         rname, kw, hopts = cfgs[i % len(cfgs)]
         arg = t.splitlines(keepends=True) if as_lines else t
         res, btypes, stypes = real_doc(rname, kw, arg, hopts is not None)
-        if any(s.startswith('XWiki') for s in stypes):
-            continue
         req = {'op': 'doc.parse', 'types': btypes, 'span': stypes, 'fuel': 1000000}
         if as_lines:
             req['lines'] = arg
